@@ -43,6 +43,7 @@
 #include <fcntl.h>
 #include <inttypes.h>
 #include <pthread.h>
+#include <stdatomic.h>
 #include <stdint.h>
 #include <stdio.h>
 #include <stdlib.h>
@@ -347,6 +348,12 @@ run_line(struct section *s, char *line)
 		rec[0] = 'I';
 		memcpy(rec + 1, &tid, 4);
 		logrec(s, rec, 5);
+		/* RTDRV_CLOSE_STDIN: the program runs without a standard input
+		 * (daemon, "prog <&-"): the first stream the library opens gets
+		 * descriptor 0 */
+		static _Atomic int closed0;
+		if (getenv("RTDRV_CLOSE_STDIN") && !atomic_exchange(&closed0, 1))
+			close(0);
 		ovni_thread_init((pid_t) tid);
 		logc(s, 'i');
 	} else if (strcmp(op, "free") == 0) {
